@@ -181,6 +181,11 @@ class World:
                 res.ref = ('ok', rv2)
             except CATCH as e:
                 res.ref = ('exc', type(e).__name__)
+            except AssertionError:
+                # the program left the domain the model defines (it violates a
+                # documented user obligation): only the model-free monitors apply
+                res.ref = ('undefined', None)
+                self.diverged = True
             res.ref_inv = it2.invocations
 
         # ---- FOREIGN monitor (C03) ------------------------------------------
